@@ -132,10 +132,8 @@ func (m *machine) observe(s *attribute.Set, nkeys int, o *Out) {
 	for i := -1; i <= o.Len; i++ {
 		kv, ok := s.Get(i)
 		g := GetR{Ok: ok, A: []AAttr{}}
-		if ok {
+		if ok { // what Get returns next to ok = false is not documented: not looked at
 			g.A = append(g.A, m.km.abstract(kv))
-		} else if kv.Key != "" || kv.Value.Type() != attribute.INVALID {
-			m.incons = append(m.incons, "Get(out of range) returned a non-zero KeyValue")
 		}
 		o.Get = append(o.Get, g)
 	}
